@@ -133,9 +133,18 @@ DET_LABEL = {"can-close-account": "Pay", "can-close-asset": "Axfer", "is-updatab
 def fragment(v, case, reeval):
     """Attribute a fragment-check violation (needs v['exec'] = witness input and v['ckey'])."""
     ex = v.get("exec")
-    if not ex:
-        return None
     target = (v["kind"], v.get("ckey"))
+    if not ex:
+        # violation of an exactness monitor: no single witness input; only whole-program counterfactuals apply
+        base = reeval(list(case.prog), case.version, None)
+        if base is None or target not in base:
+            return None
+        nxt, changed = r_swap_int_field_operands(list(case.prog))
+        if changed:
+            got = reeval(nxt, case.version, None)
+            if got is not None and target not in got:
+                return "int-field-constant-first-operand"
+        return None
     chain = [("int-field-constant-first-operand", r_swap_int_field_operands),
              ("end-of-program-fallthrough-not-an-exit", r_append_return)]
     label = v.get("type_label") or DET_LABEL.get(v.get("detector"))
